@@ -226,10 +226,10 @@ def load(repo=REPO, target_dir=None):
             os.rename(tmp, path)
             # keep the cache small: retain the 12 most recent fact files, and never evict one written in the last 20 minutes
             # (parallel runs over many scratch trees would otherwise evict each other's facts between two checks)
-            olds = sorted(glob.glob(os.path.join(fdir, "*.json")), key=os.path.getmtime)[:-12]
-            for o in olds:
+            allf = sorted(glob.glob(os.path.join(fdir, "*.json")), key=os.path.getmtime)
+            for i, o in enumerate(allf[:-12]):
                 try:
-                    if time.time() - os.path.getmtime(o) > 1200:
+                    if time.time() - os.path.getmtime(o) > 1200 or len(allf) - i > 48:
                         os.unlink(o)
                 except OSError:
                     pass
